@@ -1,9 +1,11 @@
 // Unit `server_misc`: actix-server — the listener dispatch of socket.rs (TCP / Unix-domain), the builder's
 // token-factory-listener pairing, and the signal-to-command mapping (C01, C05, C06).
 use vstd::prelude::*;
+use core::task::Poll;
 verus! {
 
 //@include ../common/core.rs
+//@include ../common/poll.rs
 
 // ===================================================================== mio / std stand-ins (TRUSTED BASE)
 #[verifier::external_body]
@@ -69,11 +71,18 @@ impl UnixAddr {
     #[verifier::external_body]
     pub fn as_pathname(&self) -> (r: Option<&Path>) { unimplemented!() }
 }
-pub mod std { pub mod fs {
+pub mod std { pub mod net {
+    #[verifier::external_body] pub struct Ipv4Addr { _p: () }
+    impl Ipv4Addr { #[verifier::external_body] pub fn new(a: u8, b: u8, c: u8, d: u8) -> (r: Ipv4Addr) { unimplemented!() } }
+    pub enum IpAddr { V4(Ipv4Addr) }
+}
+pub mod fs {
     /// unlinks the socket file (the only side effect of the UDS deregister arm besides the deregistration)
     #[verifier::external_body]
     pub fn remove_file(p: &super::super::Path) -> (r: super::super::io::Result<()>) { unimplemented!() }
 } }
+
+pub mod mio { pub mod net { pub use super::super::MioTcpStream as TcpStream; pub use super::super::MioUnixStream as UnixStream; } }
 
 // ===================================================================== socket.rs
 //@extract_type file=actix-server/src/socket.rs item="enum MioListener"
@@ -100,7 +109,7 @@ impl MioListener {
         // both kinds of listener are registered under the given token   [C05]
         r is Ok ==> final(self).registered() && final(self).reg_token() == token.0,
         r is Err ==> final(self).registered() == old(self).registered(),
-        (final(self) is Tcp) == (old(self) is Tcp),
+        (*final(self) is Tcp) == (*old(self) is Tcp),
 //@end
 
 //@extract file=actix-server/src/socket.rs item="impl Source for MioListener / fn deregister" ret=r props=C05 name=socket::deregister
@@ -108,7 +117,7 @@ impl MioListener {
     ensures
         r is Ok ==> !final(self).registered(),   // [C05] both kinds of listener are really deregistered
         r is Err ==> final(self).registered() == old(self).registered(),
-        (final(self) is Tcp) == (old(self) is Tcp),
+        (*final(self) is Tcp) == (*old(self) is Tcp),
 //@end
 }
 
@@ -134,6 +143,217 @@ pub enum ServerCommand {
         r matches ServerCommand::Stop { graceful, completion, force_system_stop }
             && graceful == (signal is Term) && completion is None && force_system_stop,
 //@end
+
+
+// ===================================================================== builder.rs: token <-> factory <-> listener pairing (C01)
+#[verifier::external_body]
+pub struct String { _p: () }
+#[verifier::external_body]
+pub struct Str { _p: () }
+impl Str { #[verifier::external_body] pub fn to_string(&self) -> (r: String) { unimplemented!() } }
+/// `N: AsRef<str>` argument
+#[verifier::external_body]
+pub struct NameLike { _p: () }
+impl NameLike { #[verifier::external_body] pub fn as_ref(&self) -> (r: &Str) { unimplemented!() } }
+/// `F: ServerServiceFactory<..>` argument (Clone)
+#[verifier::external_body]
+pub struct UserFactory { _p: () }
+impl UserFactory { #[verifier::external_body] pub fn clone(&self) -> (r: UserFactory) { unimplemented!() } }
+#[verifier::external_body]
+pub struct StdSocketAddr { _p: () }
+#[verifier::external_body]
+pub struct AddrsLike { _p: () }
+#[verifier::external_body]
+pub struct MpTcp { _p: () }
+#[verifier::external_body]
+pub struct StdTcpListener { _p: () }
+impl StdTcpListener {
+    #[verifier::external_body] pub fn set_nonblocking(&self, b: bool) -> (r: io::Result<()>) { unimplemented!() }
+    #[verifier::external_body] pub fn local_addr(&self) -> (r: io::Result<StdSocketAddr>) { unimplemented!() }
+}
+impl MioTcpListener {
+    #[verifier::external_body] pub fn local_addr(&self) -> (r: io::Result<StdSocketAddr>) { unimplemented!() }
+}
+impl vstd::std_specs::convert::FromSpecImpl<StdTcpListener> for MioListener {
+    open spec fn obeys_from_spec() -> bool { false }
+    uninterp spec fn from_spec(l: StdTcpListener) -> MioListener;
+}
+impl From<StdTcpListener> for MioListener {
+    #[verifier::external_body] fn from(l: StdTcpListener) -> (r: MioListener) ensures r is Tcp { unimplemented!() }
+}
+#[verifier::external_body]
+pub struct StdUnixListener { _p: () }
+impl StdUnixListener { #[verifier::external_body] pub fn set_nonblocking(&self, b: bool) -> (r: io::Result<()>) { unimplemented!() } }
+impl StdSocketAddr { #[verifier::external_body] pub fn new(ip: std::net::IpAddr, port: u16) -> (r: StdSocketAddr) { unimplemented!() } }
+pub mod socket { pub use super::StdSocketAddr; pub use super::StdUnixListener; }
+impl vstd::std_specs::convert::FromSpecImpl<StdUnixListener> for MioListener {
+    open spec fn obeys_from_spec() -> bool { false }
+    uninterp spec fn from_spec(l: StdUnixListener) -> MioListener;
+}
+impl From<StdUnixListener> for MioListener {
+    #[verifier::external_body] fn from(l: StdUnixListener) -> (r: MioListener) ensures r is Uds { unimplemented!() }
+}
+/// builder.rs `bind_addr` (resolves and binds every address; sockets are the OS's): NOT verified
+#[verifier::external_body]
+pub fn bind_addr(addrs: AddrsLike, backlog: u32, mptcp: &MpTcp) -> (r: io::Result<Vec<MioTcpListener>>)
+    ensures r matches Ok(v) ==> v@.len() <= 65536,      // a name resolves to a small number of addresses (A-INT: token overflow not reachable)
+{ unimplemented!() }
+/// rule R9j: consuming `for x in vec` takes the elements from the front
+#[verifier::external_body]
+pub fn vec_take_first<T>(v: &mut Vec<T>) -> (r: T)
+    requires old(v)@.len() > 0,
+    ensures r == old(v)@[0], final(v)@ == old(v)@.subrange(1, old(v)@.len() as int),
+{ unimplemented!() }
+
+/// Box<dyn InternalServiceFactory>: `token()` is the listener token its services are created for (service.rs)
+#[verifier::external_body]
+pub struct BoxedFactory { _p: () }
+impl BoxedFactory { pub uninterp spec fn token(&self) -> usize; }
+pub struct StreamNewService { }
+impl StreamNewService {
+    /// service.rs StreamNewService::create stores the token it is given (a plain struct constructor)
+    #[verifier::external_body]
+    pub fn create(name: String, token: usize, inner: UserFactory, addr: StdSocketAddr) -> (r: BoxedFactory)
+        ensures r.token() == token,
+    { unimplemented!() }
+}
+
+/// ServerBuilder re-declared with the fields the pairing code touches (the channel ends / worker config are opaque);
+/// field names and order are checked against the real struct on every run
+//@check_struct file=actix-server/src/builder.rs name=ServerBuilder fields=threads,token,backlog,factories,sockets,mptcp,exit,listen_os_signals,cmd_tx,cmd_rx,worker_config
+#[verifier::external_body]
+pub struct Opaque { _p: () }
+pub struct ServerBuilder {
+    pub threads: usize,
+    pub token: usize,
+    pub backlog: u32,
+    pub factories: Vec<BoxedFactory>,
+    pub sockets: Vec<(usize, String, MioListener)>,
+    pub mptcp: MpTcp,
+    pub exit: bool,
+    pub listen_os_signals: bool,
+    pub cmd_tx: Opaque,
+    pub cmd_rx: Opaque,
+    pub worker_config: Opaque,
+}
+
+impl ServerBuilder {
+    /// [C01] listener k carries token k and factory k creates services for token k — the table both the accept
+    /// thread (`sockets_wf`) and every worker (`table_wf`, via wrap_worker_services' `assert_eq!(token, len)`) rely on
+    pub open spec fn wf(&self) -> bool {
+        &&& self.factories@.len() == self.token && self.sockets@.len() == self.token
+        &&& forall|k: int| 0 <= k < self.token ==> (#[trigger] self.factories@[k]).token() == k
+        &&& forall|k: int| 0 <= k < self.token ==> (#[trigger] self.sockets@[k]).0 == k
+    }
+
+//@extract file=actix-server/src/builder.rs item="impl ServerBuilder / fn next_token" ret=r props=C01 name=builder::next_token
+//@spec
+    requires old(self).token < usize::MAX,
+    ensures r == old(self).token, final(self).token == old(self).token + 1,   // [C01] tokens are handed out once each, in order
+            final(self).factories == old(self).factories && final(self).sockets == old(self).sockets,
+//@end
+
+//@extract file=actix-server/src/builder.rs item="impl ServerBuilder / fn listen" ret=r props=C01 name=builder::listen mut_self sig_replace="pub fn listen<F, N: AsRef<str>>(=>pub fn listen(;;name: N=>name: NameLike;;factory: F=>factory: UserFactory;;where F: ServerServiceFactory<TcpStream>,=> "
+//@spec
+    requires self.wf(), self.token < usize::MAX,
+    ensures r matches Ok(b) ==> b.wf() && b.token == self.token + 1 && b.sockets@[self.token as int].2 is Tcp,   // [C01]
+//@end
+
+//@extract file=actix-server/src/builder.rs item="impl ServerBuilder / fn listen_uds" ret=r props=C01 name=builder::listen_uds mut_self sig_replace="pub fn listen_uds<F, N: AsRef<str>>(=>pub fn listen_uds(;;name: N=>name: NameLike;;factory: F=>factory: UserFactory;;where F: ServerServiceFactory<actix_rt::net::UnixStream>,=> "
+//@spec
+    requires self.wf(), self.token < usize::MAX,
+    ensures r matches Ok(b) ==> b.wf() && b.token == self.token + 1 && b.sockets@[self.token as int].2 is Uds,   // [C01] Unix-domain listeners get their own token and factory too
+//@replace pattern="use std::net::{IpAddr, Ipv4Addr};" rule=R15
+use crate::std::net::{IpAddr, Ipv4Addr};
+//@end
+
+//@extract file=actix-server/src/builder.rs item="impl ServerBuilder / fn bind" ret=r props=C01 name=builder::bind mut_self sig_replace="pub fn bind<F, U, N>(=>pub fn bind(;;name: N=>name: NameLike;;addrs: U=>addrs: AddrsLike;;factory: F=>factory: UserFactory;;where F: ServerServiceFactory<TcpStream>, U: ToSocketAddrs, N: AsRef<str>,=> "
+//@spec
+    requires self.wf(), self.token < usize::MAX - 65536,
+    ensures r matches Ok(b) ==> b.wf() && b.token >= self.token,   // [C01] one fresh token, one factory and one listener per resolved address
+//@loop head="while r9_q.len() > 0"
+        invariant
+            r4_self.wf(),
+            r4_self.token >= self.token,
+            r4_self.token + r9_q@.len() < usize::MAX,
+        decreases r9_q@.len(),
+//@end
+}
+
+
+// ===================================================================== join_all.rs (C06)
+/// futures_core BoxFuture<'static, T>: a most-general future (any outcome), with the Future contract as precondition:
+/// it must not be polled again after it has completed
+#[verifier::external_body]
+#[verifier::reject_recursive_types(T)]
+pub struct BoxFuture<'a, T> { _p: core::marker::PhantomData<&'a T> }
+impl<'a, T> BoxFuture<'a, T> {
+    pub uninterp spec fn done(&self) -> bool;
+    pub uninterp spec fn polls(&self) -> nat;
+    #[verifier::external_body]
+    pub fn as_mut(&mut self) -> (r: &mut Self) ensures *r == *old(self), *final(r) == *final(self) { unimplemented!() }
+    #[verifier::external_body]
+    pub fn poll(&mut self, cx: &mut Context<'_>) -> (r: Poll<T>)
+        requires !old(self).done(),
+        ensures final(self).done() == (r is Ready), final(self).polls() == old(self).polls() + 1,
+    { unimplemented!() }
+}
+
+#[verifier::reject_recursive_types(T)]
+//@extract_type file=actix-server/src/join_all.rs item="enum JoinFuture<T>"
+#[verifier::reject_recursive_types(T)]
+//@extract_type file=actix-server/src/join_all.rs item="struct JoinAll<T>"
+
+impl<T> JoinAll<T> {
+    pub fn get_mut(&mut self) -> (r: &mut Self) ensures *r == *old(self), *final(r) == *final(self) { self }
+
+    /// a slot still holding a future has not completed; a completed slot still holds its result
+    pub open spec fn wf(&self) -> bool {
+        forall|i: int| 0 <= i < self.fut@.len() ==> match #[trigger] self.fut@[i] {
+            JoinFuture::Future(f) => !f.done(),
+            JoinFuture::Result(o) => o is Some,
+        }
+    }
+
+#[verifier::loop_isolation(false)]
+//@extract file=actix-server/src/join_all.rs item="impl<T> Future for JoinAll<T> / fn poll" ret=r props=C06 name=join_all::poll alias_this
+//@spec
+    requires old(self).wf(),
+    ensures
+        final(self).fut@.len() == old(self).fut@.len(),
+        // it resolves exactly when every future has completed, with one result per future, in input order   [C06]
+        r matches Poll::Ready(v) ==> v@.len() == old(self).fut@.len(),
+        r matches Poll::Ready(v) ==> forall|i: int| 0 <= i < old(self).fut@.len() ==> (old(self).fut@[i] matches JoinFuture::Result(Some(x)) ==> #[trigger] v@[i] == x),
+        r is Pending ==> final(self).wf() && exists|i: int| 0 <= i < final(self).fut@.len() && (#[trigger] final(self).fut@[i]) is Future,
+        // a future that has completed is never polled again (the stub's precondition), and already-stored results stay
+        forall|i: int| 0 <= i < old(self).fut@.len() ==> (old(self).fut@[i] is Result && r is Pending ==> #[trigger] final(self).fut@[i] == old(self).fut@[i]),
+//@insert after="let mut ready = true;"
+        let ghost mut wit: int = 0;
+//@insert after="Poll::Pending =>"
+ { proof { wit = r9_n - 1; }
+//@insert after="ready = false"
+ }
+//@loop 1
+        invariant
+            r9_n <= self.fut@.len(),
+            self.fut@.len() == old(self).fut@.len(),
+            forall|i: int| r9_n <= i < self.fut@.len() ==> (#[trigger] self.fut@[i]) == old(self).fut@[i],
+            forall|i: int| 0 <= i < r9_n ==> match #[trigger] self.fut@[i] { JoinFuture::Future(f) => !f.done(), JoinFuture::Result(o) => o is Some },
+            forall|i: int| 0 <= i < r9_n ==> (old(self).fut@[i] is Result ==> #[trigger] self.fut@[i] == old(self).fut@[i]),
+            ready ==> forall|i: int| 0 <= i < r9_n ==> (#[trigger] self.fut@[i]) is Result,
+            !ready ==> 0 <= wit < r9_n && self.fut@[wit] is Future,
+        decreases self.fut@.len() - r9_n,
+//@loop 2
+        invariant
+            r9_n <= self.fut@.len(),
+            self.fut@.len() == old(self).fut@.len(),
+            res@.len() == r9_n,
+            forall|i: int| r9_n <= i < self.fut@.len() ==> (#[trigger] self.fut@[i]) matches JoinFuture::Result(Some(_)),
+            forall|i: int| r9_n <= i < self.fut@.len() ==> (old(self).fut@[i] is Result ==> #[trigger] self.fut@[i] == old(self).fut@[i]),
+            forall|i: int| 0 <= i < r9_n ==> (old(self).fut@[i] matches JoinFuture::Result(Some(x)) ==> #[trigger] res@[i] == x),
+        decreases self.fut@.len() - r9_n,
+//@end
+}
 
 } // verus!
 fn main() {}
